@@ -7,6 +7,7 @@ from vlib.common import Sub, Violation, call, trip, same_multiset, O, G
 from checks.nnlib import pyrepseq, CUSTOM, custom_neighbours_self
 
 PROPERTY = "C11"
+QUICK_SCALE = 2
 RULE = ("grid: for list sizes 1..N and n_cpu 1..16 (every ratio of list size to worker count, incl. n_cpu > len and chunk "
         "sizes that do not divide the list) x mode in {default, hamming, custom callable}, one kdtree call per grid point on a "
         "deterministic clonal repertoire; random: amino-acid clonal families of 1..40 sequences x n_cpu in 1..16 x compression "
@@ -126,6 +127,10 @@ def random_case(draw, tier="quick"):
     mode = draw(st.sampled_from(["default", "default", "hamming", "double", "lenpen", "blocks"]))
     seqs = draw(G.clonal_family(alpha=alpha, max_size=40, founder_len=(2, 9), max_edits=3,
                                 allow_empty=True))
+    if draw(st.integers(0, 3)) == 0:
+        # one sequence occurring 3-5 times (every copy is a distance-0 neighbour of every other copy)
+        dup = draw(st.sampled_from(seqs))
+        seqs = list(draw(st.permutations(list(seqs) + [dup] * draw(st.integers(2, 4)))))
     case = {"seqs": seqs, "k": draw(st.sampled_from([1, 2, 2, 3])), "mode": mode}
     if mode not in ("default", "hamming"):
         case["maxc"] = draw(st.sampled_from(["inf", "inf", "0", "1", "2", "3.5", "4"]))
